@@ -19,12 +19,10 @@ import (
 	"sync"
 	"testing"
 	"testing/synctest"
-	"time"
 
 	"github.com/saucelabs/forwarder/internal/zzverif/bubble"
 	"github.com/saucelabs/forwarder/internal/zzverif/explore"
 	"github.com/saucelabs/forwarder/internal/zzverif/simnet"
-	"github.com/saucelabs/forwarder/internal/zzverif/tsched"
 	"github.com/saucelabs/forwarder/internal/zzverif/vsync"
 	"golang.org/x/net/http2"
 	"golang.org/x/net/http2/hpack"
@@ -873,6 +871,125 @@ func flowScenarioCfg(x *explore.X, depth int, reduced bool) {
 	x.Outcome(fmt.Sprintf("dir%d w%d tight=%v got=%d", dir, w, tight, b.gotConn))
 }
 
+// ---- family 1b: flow control while the receiver does not read ---------------------------------------------------
+
+// stalledScenario: as the flow family on the 8-octet window with a nearly exhausted connection window, but at
+// some step the receiver stops reading its socket (64-octet socket buffer) and zero-length DATA frames are
+// sent until the relay's output channel towards it is full; the remaining events arrive while every emission
+// has to wait for room in that channel; after the last event the receiver reads on. A relay may do whatever it
+// likes while it waits - but what the receiver finally gets must still respect its windows, in order, and
+// every octet must be credited back. (Reduced menu: DATA w / w+1 on two streams, WINDOW_UPDATE by 1 / w on
+// both streams and the connection, SETTINGS_INITIAL_WINDOW_SIZE up.)
+func stalledScenario(x *explore.X, depth int) {
+	y := newSys(x)
+	defer y.stop()
+	dir := x.ChooseFree("data-direction", 2)
+	stallAt := x.ChooseFree("receiver-stops-reading-before-step", depth)
+	w := 8
+	a, b := y.c, y.s
+	if dir == 1 {
+		a, b = y.s, y.c
+	}
+	b.sendSettings(http2.Setting{ID: http2.SettingInitialWindowSize, Val: uint32(w)})
+	synctest.Wait()
+	for _, s := range []uint32{1, 3, 5} {
+		y.c.sendHeaders(s, reqHeaders(fmt.Sprintf("/%d", s)), false, http2.PriorityParam{}, 0)
+		synctest.Wait()
+		if dir == 1 {
+			y.s.sendHeaders(s, hdr(":status", "200"), false, http2.PriorityParam{}, 0)
+			synctest.Wait()
+		}
+	}
+	b.sendWU(5, 70000)
+	if !y.oracle("setup") {
+		return
+	}
+	for left := 65535 - (w + 4); left > 0; {
+		n := min(left, 16000)
+		a.sendData(5, bytes.Repeat([]byte{'z'}, n), 0, false)
+		synctest.Wait()
+		left -= n
+	}
+	if !y.oracle("setup-connection-window") {
+		return
+	}
+	salt := byte(0)
+	payload := func(n int) []byte {
+		salt++
+		p := make([]byte, n)
+		for i := range p {
+			p[i] = 'a' + (salt+byte(i))%26
+		}
+		return p
+	}
+	type event struct {
+		name string
+		do   func()
+	}
+	var evs []event
+	for _, s := range []uint32{1, 3} {
+		s := s
+		for _, n := range []int{w, w + 1} {
+			n := n
+			evs = append(evs, event{fmt.Sprintf("A:DATA(s%d,%d)", s, n), func() { a.sendData(s, payload(n), 0, false) }})
+		}
+		for _, n := range []int{1, w} {
+			n := n
+			evs = append(evs, event{fmt.Sprintf("B:WU(s%d,%d)", s, n), func() { b.sendWU(s, n) }})
+		}
+	}
+	for _, n := range []int{1, w} {
+		n := n
+		evs = append(evs, event{fmt.Sprintf("B:WU(conn,%d)", n), func() { b.sendWU(0, n) }})
+	}
+	evs = append(evs, event{"B:SETTINGS(IWS=16)", func() { b.sendSettings(http2.Setting{ID: http2.SettingInitialWindowSize, Val: 16}) }})
+	hist := ""
+	stalled := false
+	r := y.relayTo(b)
+	for step := 0; step < depth; step++ {
+		if step == stallAt {
+			b.conn.SetPaused(true)
+			b.conn.SetLimit(64)
+			for i := 0; len(r.output) < cap(r.output); i++ {
+				if i > 4*cap(r.output) {
+					x.Failf("harness/fill", "the output channel towards the stalled receiver does not fill up (%d of %d after %d frames)", len(r.output), cap(r.output), i)
+					return
+				}
+				a.sendData(5, nil, 0, false)
+				synctest.Wait()
+			}
+			stalled = true
+			hist += "[receiver stops reading, channel full] "
+		}
+		ev := evs[x.ChooseFree(fmt.Sprintf("event%d", step), len(evs))]
+		hist += ev.name + " "
+		x.Logf("%s", ev.name)
+		ev.do()
+		synctest.Wait()
+		if !stalled && !y.oracle(hist) {
+			return
+		}
+	}
+	b.conn.SetPaused(false)
+	b.conn.SetLimit(0)
+	hist += "[receiver reads on] "
+	if !y.oracle(hist) {
+		return
+	}
+	b.sendWU(0, 1<<20)
+	b.sendSettings(http2.Setting{ID: http2.SettingInitialWindowSize, Val: 1 << 20})
+	if !y.oracle(hist + "open-all-windows") {
+		return
+	}
+	for _, s := range []uint32{1, 3, 5} {
+		if d := prefixDiff(a.sentEl[s], b.gotEl[s]); d != "" || len(a.sentEl[s]) != len(b.gotEl[s]) {
+			x.Failf("not-delivered-after-windows-opened", "after %s+open-all-windows: stream %d: sender emitted %s, receiver holds %s", hist, s, clipEls(a.sentEl[s]), clipEls(b.gotEl[s]))
+			return
+		}
+	}
+	x.Outcome(fmt.Sprintf("dir%d stall@%d got=%d", dir, stallAt, b.gotConn))
+}
+
 // ---- family 2: fidelity of headers / data / END_STREAM / resets / push promises ------------------------------
 
 func fidelityScenario(x *explore.X, depth int) {
@@ -996,6 +1113,105 @@ func fidelityScenario(x *explore.X, depth int) {
 	x.Outcome(fmt.Sprintf("c=%d s=%d", len(y.c.sentEl[1])+len(y.c.sentEl[3]), len(y.s.sentEl[1])+len(y.s.sentEl[3])))
 }
 
+// ---- family 2b: fidelity while one endpoint does not read -------------------------------------------------------
+
+// stalledFidelity: endpoint D stops reading before step k (64-octet socket buffer), so whatever the relay
+// writes to it blocks half-way; the remaining events arrive meanwhile - header blocks that need CONTINUATION
+// frames towards D, DATA from D (whose credit the relay returns to D with WINDOW_UPDATE frames of its own),
+// PING and SETTINGS towards D (which the relay writes from another goroutine than the queued frames); then D
+// reads on. A header block must reach D as HEADERS immediately followed by its CONTINUATION frames, whatever
+// else was waiting to be written: the endpoint's frame reader reports anything else, and the fidelity oracles
+// compare what it decoded.
+func stalledFidelity(x *explore.X, depth int) {
+	y := newSys(x)
+	defer y.stop()
+	dEnd := x.ChooseFree("stalled-endpoint", 2) // 0 server, 1 client
+	stallAt := x.ChooseFree("stops-reading-before-step", depth)
+	d, o := y.s, y.c
+	if dEnd == 1 {
+		d, o = y.c, y.s
+	}
+	for _, s := range []uint32{1, 3} {
+		y.c.sendHeaders(s, reqHeaders(fmt.Sprintf("/%d", s)), false, http2.PriorityParam{}, 0)
+		synctest.Wait()
+	}
+	y.s.sendHeaders(1, hdr(":status", "200"), false, http2.PriorityParam{}, 0)
+	if !y.oracle("setup") {
+		return
+	}
+	big := strings.Repeat("v", 20000)
+	next := uint32(5)
+	srvBig, srvTrailer := false, false
+	type event struct {
+		name string
+		do   func()
+	}
+	hist := ""
+	stalled := false
+	for step := 0; step < depth; step++ {
+		if step == stallAt {
+			d.conn.SetPaused(true)
+			d.conn.SetLimit(64)
+			stalled = true
+			hist += "[" + d.name + " stops reading] "
+		}
+		var evs []event
+		// header blocks of 20000 octets towards D (sent by the other endpoint O)
+		if o == y.c {
+			evs = append(evs, event{"O:HEADERS-20000(new stream)", func() {
+				y.c.sendHeaders(next, append(reqHeaders("/big"), hpack.HeaderField{Name: "x-big", Value: big}), false, http2.PriorityParam{}, 16000)
+				next += 2
+			}})
+		} else {
+			if !srvBig {
+				evs = append(evs, event{"O:HEADERS-20000(s3 response)", func() {
+					y.s.sendHeaders(3, append(hdr(":status", "200"), hpack.HeaderField{Name: "x-big", Value: big}), false, http2.PriorityParam{}, 16000)
+					srvBig = true
+				}})
+			}
+			if !srvTrailer {
+				evs = append(evs, event{"O:TRAILERS-20000(s1)", func() {
+					y.s.sendHeaders(1, hdr("x-trailer", big), true, http2.PriorityParam{}, 16000)
+					srvTrailer = true
+				}})
+			}
+		}
+		if !(o == y.s && srvTrailer) {
+			evs = append(evs, event{"O:DATA(s1,5)", func() { o.sendData(1, []byte("hello"), 0, false) }})
+		}
+		evs = append(evs,
+			event{"D:DATA(s1,5)", func() { d.sendData(1, []byte("world"), 0, false) }},
+			event{"D:DATA(s3,6)", func() { d.sendData(3, []byte("answer"), 0, false) }},
+			event{"O:PING", func() { o.sendPing(false, 9) }},
+			event{"O:SETTINGS(maxconc=9)", func() { o.sendSettings(http2.Setting{ID: http2.SettingMaxConcurrentStreams, Val: 9}) }},
+			event{"D:WU(s1,5)", func() { d.sendWU(1, 5) }},
+		)
+		ev := evs[x.ChooseFree(fmt.Sprintf("event%d", step), len(evs))]
+		hist += ev.name + " "
+		x.Logf("%s", ev.name)
+		ev.do()
+		synctest.Wait()
+		if !stalled && !y.oracle(hist) {
+			return
+		}
+	}
+	d.conn.SetPaused(false)
+	d.conn.SetLimit(0)
+	hist += "[" + d.name + " reads on] "
+	if !y.oracle(hist) {
+		return
+	}
+	for _, pr := range [][2]*ep{{y.c, y.s}, {y.s, y.c}} {
+		for s, want := range pr[0].sentEl {
+			if got := pr[1].gotEl[s]; len(got) != len(want) || prefixDiff(got, want) != "" {
+				x.Failf("not-delivered", "after %s: stream %d from %s: emitted %s, decoded %s", hist, s, pr[0].name, clipEls(want), clipEls(got))
+				return
+			}
+		}
+	}
+	x.Outcome(fmt.Sprintf("d=%s stall@%d c=%d s=%d", d.name, stallAt, len(y.c.sentEl[1])+len(y.c.sentEl[3]), len(y.s.sentEl[1])+len(y.s.sentEl[3])))
+}
+
 // ---- family 3: frame size limits --------------------------------------------------------------------------
 
 func frameSizeScenario(x *explore.X, depth int) {
@@ -1071,99 +1287,6 @@ func frameSizeScenario(x *explore.X, depth int) {
 	x.Outcome(fmt.Sprintf("dir%d iws%d max=%d/%d got=%d", dir, iws, a.maxFrame, b.maxFrame, b.gotConn))
 }
 
-// ---- family 4 (Engine T): the two relays under a controlled scheduler ----------------------------------------
-
-// schedScenario: the frames of both endpoints are already in the sockets. Four scheduler threads run
-// processFrame(client frames) on the client-to-server relay, processFrame(server frames) on the
-// server-to-client relay, and one writer per relay (the loop relayFrames runs: take a queued frame, lock the
-// destination, send it). Every interleaving of their lock / atomic / channel hand-over operations within the
-// preemption bound is explored; when all frames are processed and written every oracle of the property runs.
-func schedScenario(t *testing.T, x *explore.X) {
-	variant := x.ChooseFree("server-frames", 4)
-	w := 8
-	var y *sys
-	var perr [2]error
-	tsched.Run(t, x, time.Second, true, func() {
-		y = buildSys(x, true)
-		for i := range y.relayDone {
-			y.relayDone[i] = make(chan struct{})
-		}
-		// server: small window, then credit arriving while the client's DATA is being queued
-		y.s.sendSettings(http2.Setting{ID: http2.SettingInitialWindowSize, Val: uint32(w)})
-		y.c.sendHeaders(1, reqHeaders("/1"), false, http2.PriorityParam{}, 0)
-		y.c.sendData(1, []byte("12345678"), 0, false)
-		y.c.sendData(1, []byte("abcdefgh"), 0, false)
-		nServer := 2
-		switch variant {
-		case 0:
-			y.s.sendWU(1, w)
-		case 1:
-			y.s.sendWU(1, w)
-			y.s.sendWU(0, w)
-			nServer = 3
-		case 2:
-			y.s.sendSettings(http2.Setting{ID: http2.SettingInitialWindowSize, Val: uint32(2 * w)})
-		case 3:
-			y.s.sendSettings(http2.Setting{ID: http2.SettingInitialWindowSize, Val: uint32(w / 2)})
-			y.s.sendWU(1, 2*w)
-			nServer = 3
-		}
-		y.c.sendData(1, nil, 0, true)
-		for i, spec := range []struct {
-			r *relay
-			n int
-		}{{y.cToS, 4}, {y.sToC, nServer}} {
-			i, r, n := i, spec.r, spec.n
-			vsync.GoNamed([]string{"process-client-frames", "process-server-frames"}[i], func() {
-				for k := 0; k < n; k++ {
-					f, err := r.src.ReadFrame()
-					if err == nil {
-						err = r.processFrame(f)
-					}
-					if err != nil {
-						perr[i] = err
-						return
-					}
-				}
-			})
-			vsync.GoNamed([]string{"writer-to-server", "writer-to-client"}[i], func() {
-				for {
-					select {
-					case f := <-r.output:
-						vsync.Point("writer: frame taken from the output channel")
-						r.destMu.Lock()
-						err := f.send(r.dest)
-						r.destMu.Unlock()
-						if err != nil {
-							perr[i] = err
-							return
-						}
-					case <-y.closing:
-						return
-					}
-				}
-			})
-		}
-	}, func(s *vsync.Scheduler) {
-		for i, e := range perr {
-			if e != nil {
-				x.Failf("relay-terminated", "variant %d: thread of relay %d failed: %v\n  schedule: %v", variant, i, e, s.Trace)
-			}
-		}
-		if !x.Failed() && y.oracleNoRelayCheck(fmt.Sprintf("scheduled run (variant %d): %v", variant, s.Trace)) && y.focus == "C10" {
-			// everything the windows permit has arrived: with the credit of the variant all 16 octets and END_STREAM
-			want, got := y.c.sentEl[1], y.s.gotEl[1]
-			if len(got) != len(want) || prefixDiff(got, want) != "" {
-				x.Failf("not-delivered", "variant %d: client emitted %s, server decoded %s\n  schedule: %v", variant, clipEls(want), clipEls(got), s.Trace)
-			}
-		}
-		x.Outcome(fmt.Sprintf("sched v%d preemptions=%d", variant, s.Preempt))
-		close(y.relayDone[0])
-		close(y.relayDone[1])
-		y.stop()
-	})
-}
-
 func runBubble(t *testing.T, f func(x *explore.X)) func(x *explore.X) {
 	return func(x *explore.X) { bubble.Run(t, x, func() { f(x) }) }
 }
@@ -1173,10 +1296,10 @@ func testH2(t *testing.T, prop string) {
 	var s *explore.Suite
 	if prop == "C09" {
 		s = explore.NewSuite(t, "C09", "model_checking",
-			"a real relay pair (newRelay x2, relayFrames running) between two raw-frame endpoints on simulated pipes; (flow) receiver window w in {8,16} x data direction x connection window {ample, w+4 left} then EVERY sequence of depth 3 (quick; depth 4 for the 8-octet window with both connection-window set-ups) / 5 (thorough) over the menu {DATA sizes 3/w/w+1 on 2 streams, padded DATA, empty and non-empty END_STREAM DATA, RST, trailers, WINDOW_UPDATE stream/connection by 1/w, SETTINGS_INITIAL_WINDOW_SIZE down (w/2) and up (2w)} with explicit-state dedupe on (relay windows and queues, receiver ledger); (frame-size) SETTINGS_MAX_FRAME_SIZE changes of both endpoints x DATA of 16384..40000 octets x header blocks of 20000/40000 octets x PUSH_PROMISE, depth 3/4; oracles at every quiescent state: every DATA frame fits the credit its receiver had granted on stream and connection, no frame exceeds the receiver's MAX_FRAME_SIZE, WINDOW_UPDATEs returned to a sender = flow-controlled octets (incl. padding) it sent on stream and connection, no queued frame that fits is held back")
+			"a real relay pair (newRelay x2, relayFrames running) between two raw-frame endpoints on simulated pipes; (flow) receiver window w in {8,16} x data direction x connection window {ample, w+4 left} then EVERY sequence of depth 3 (quick; depth 4 for the 8-octet window with both connection-window set-ups) / 5 (thorough) over the menu {DATA sizes 3/w/w+1 on 2 streams, padded DATA, empty and non-empty END_STREAM DATA, RST, trailers, WINDOW_UPDATE stream/connection by 1/w, SETTINGS_INITIAL_WINDOW_SIZE down (w/2) and up (2w)} with explicit-state dedupe on (relay windows and queues, receiver ledger); (stalled-receiver) the receiver stops reading before step k (every k) and the relay's output channel towards it is filled, then EVERY sequence of the remaining events of a depth-3 (quick) / 4 (thorough) sequence over an 11-event menu arrives while emissions wait for room, then the receiver reads on; (frame-size) SETTINGS_MAX_FRAME_SIZE changes of both endpoints x DATA of 16384..40000 octets x header blocks of 20000/40000 octets x PUSH_PROMISE, depth 3/4; oracles at every quiescent state: every DATA frame fits the credit its receiver had granted on stream and connection, no frame exceeds the receiver's MAX_FRAME_SIZE, WINDOW_UPDATEs returned to a sender = flow-controlled octets (incl. padding) it sent on stream and connection, no queued frame that fits is held back")
 	} else {
 		s = explore.NewSuite(t, "C10", "model_checking",
-			"a real relay pair between two raw-frame endpoints with their own HPACK state; (fidelity) EVERY sequence of depth 3 (quick) / 4 (thorough) over a menu of ~25-40 enabled events on 2 streams in both directions {HEADERS plain / with priority / END_STREAM / split by the sender into HEADERS+CONTINUATION at several points / 20000-octet block, DATA small / padded / 20000 octets / empty END_STREAM, trailers (+CONTINUATION), RST_STREAM, PUSH_PROMISE, PRIORITY, PING, SETTINGS incl. HEADER_TABLE_SIZE 0/4096, SETTINGS ack, GOAWAY}; (flow) the flow family of C09 (w in {8,16} x direction x connection window {ample, w+4 left}, EVERY sequence of depth 3 quick - depth 4 for the 8-octet window - / 5 thorough, the visiting order of the per-stream queues explored) with its no-stranding and final-delivery oracles; (frame-size) the frame-size family of C09 (endpoints announcing different SETTINGS_MAX_FRAME_SIZE, header blocks of 20000/40000 octets, PUSH_PROMISE, large DATA; depth 3/4): a frame larger than any limit its receiver ever announced cannot be decoded by a conforming receiver; at every quiescent state the receiver's decoded element sequence per stream (header lists, concatenated DATA, END_STREAM position, RST code, PUSH_PROMISE) must be a prefix of what the sender emitted, connection-level frames must be relayed in order, and at the end everything emitted must have been decoded")
+			"a real relay pair between two raw-frame endpoints with their own HPACK state; (fidelity) EVERY sequence of depth 3 (quick) / 4 (thorough) over a menu of ~25-40 enabled events on 2 streams in both directions {HEADERS plain / with priority / END_STREAM / split by the sender into HEADERS+CONTINUATION at several points / 20000-octet block, DATA small / padded / 20000 octets / empty END_STREAM, trailers (+CONTINUATION), RST_STREAM, PUSH_PROMISE, PRIORITY, PING, SETTINGS incl. HEADER_TABLE_SIZE 0/4096, SETTINGS ack, GOAWAY}; (stalled-fidelity) one endpoint stops reading before step k (every k), then EVERY sequence of the remaining events of a depth-3 (quick) / 4 (thorough) sequence over {20000-octet header blocks / trailers towards it, DATA both ways, PING, SETTINGS, WINDOW_UPDATE} arrives while the relay's writes to it are blocked, then it reads on: header blocks must arrive contiguous and everything decodes as sent; (flow) the flow family of C09 (w in {8,16} x direction x connection window {ample, w+4 left}, EVERY sequence of depth 3 quick - depth 4 for the 8-octet window - / 5 thorough, the visiting order of the per-stream queues explored) with its no-stranding and final-delivery oracles; (frame-size) the frame-size family of C09 (endpoints announcing different SETTINGS_MAX_FRAME_SIZE, header blocks of 20000/40000 octets, PUSH_PROMISE, large DATA; depth 3/4): a frame larger than any limit its receiver ever announced cannot be decoded by a conforming receiver; at every quiescent state the receiver's decoded element sequence per stream (header lists, concatenated DATA, END_STREAM position, RST code, PUSH_PROMISE) must be a prefix of what the sender emitted, connection-level frames must be relayed in order, and at the end everything emitted must have been decoded")
 	}
 	s.Assume = []string{"the iteration order of the relay's per-stream queue map (Go leaves it unspecified) is owned by the harness through a build-time rewrite of the range statement: every rotation of the sorted stream ids is an explored choice", "the harness copies the relay wiring of Config.Proxy (which dials TLS itself and cannot run on the simulated network); the connection preface is outside the harness", "golang.org/x/net/http2.Framer and hpack are the endpoints' codecs", "(relay-interleavings) sync.Mutex / atomics / go statements of relay.go are redirected at build time to a cooperative scheduler: processFrame(client frames) || processFrame(server frames) || the two frame writers run as four scheduler threads over pre-loaded frames, all interleavings with at most 1 (quick) / 2 (thorough) preemptions; in the other families events are separated by quiescence"}
 	q, th := 3, 5
@@ -1188,6 +1311,8 @@ func testH2(t *testing.T, prop string) {
 		s.Add(explore.Scenario{Name: "flow-quick", Remote: true, Tiers: []string{"quick"}, Run: runBubble(t, func(x *explore.X) { flowScenario(x, q) })})
 		s.Add(explore.Scenario{Name: "flow-quick-deep", Remote: true, Tiers: []string{"quick"}, Run: runBubble(t, func(x *explore.X) { flowScenarioCfg(x, q+1, true) })})
 		s.Add(explore.Scenario{Name: "flow-thorough", Remote: true, Tiers: []string{"thorough"}, Run: runBubble(t, func(x *explore.X) { flowScenario(x, th) })})
+		s.Add(explore.Scenario{Name: "stalled-receiver-quick", Remote: true, Tiers: []string{"quick"}, Run: runBubble(t, func(x *explore.X) { stalledScenario(x, 3) })})
+		s.Add(explore.Scenario{Name: "stalled-receiver-thorough", Remote: true, Tiers: []string{"thorough"}, Run: runBubble(t, func(x *explore.X) { stalledScenario(x, 4) })})
 		s.Add(explore.Scenario{Name: "relay-interleavings", Remote: true, MaxDev: map[string]int{"quick": 1, "thorough": 2}, Run: func(x *explore.X) { schedScenario(t, x) }})
 		s.Add(explore.Scenario{Name: "frame-size-quick", Remote: true, Tiers: []string{"quick"}, Run: runBubble(t, func(x *explore.X) { frameSizeScenario(x, 3) })})
 		s.Add(explore.Scenario{Name: "frame-size-thorough", Remote: true, Tiers: []string{"thorough"}, Run: runBubble(t, func(x *explore.X) { frameSizeScenario(x, 4) })})
@@ -1195,11 +1320,15 @@ func testH2(t *testing.T, prop string) {
 		s.Add(explore.Scenario{Name: "relay-interleavings", Remote: true, MaxDev: map[string]int{"quick": 1, "thorough": 2}, Run: func(x *explore.X) { schedScenario(t, x) }})
 		s.Add(explore.Scenario{Name: "fidelity-quick", Remote: true, Tiers: []string{"quick"}, Run: runBubble(t, func(x *explore.X) { fidelityScenario(x, 3) })})
 		s.Add(explore.Scenario{Name: "fidelity-thorough", Remote: true, Tiers: []string{"thorough"}, Run: runBubble(t, func(x *explore.X) { fidelityScenario(x, 4) })})
+		s.Add(explore.Scenario{Name: "stalled-fidelity-quick", Remote: true, Tiers: []string{"quick"}, Run: runBubble(t, func(x *explore.X) { stalledFidelity(x, 3) })})
+		s.Add(explore.Scenario{Name: "stalled-fidelity-thorough", Remote: true, Tiers: []string{"thorough"}, Run: runBubble(t, func(x *explore.X) { stalledFidelity(x, 4) })})
 		s.Add(explore.Scenario{Name: "flow-quick", Remote: true, Tiers: []string{"quick"}, Run: runBubble(t, func(x *explore.X) { flowScenario(x, q) })})
 		s.Add(explore.Scenario{Name: "flow-quick-deep", Remote: true, Tiers: []string{"quick"}, Run: runBubble(t, func(x *explore.X) { flowScenarioCfg(x, q+1, true) })})
 		s.Add(explore.Scenario{Name: "flow-thorough", Remote: true, Tiers: []string{"thorough"}, Run: runBubble(t, func(x *explore.X) { flowScenario(x, th) })})
 		s.Add(explore.Scenario{Name: "frame-size-quick", Remote: true, Tiers: []string{"quick"}, Run: runBubble(t, func(x *explore.X) { frameSizeScenario(x, 3) })})
 		s.Add(explore.Scenario{Name: "frame-size-thorough", Remote: true, Tiers: []string{"thorough"}, Run: runBubble(t, func(x *explore.X) { frameSizeScenario(x, 4) })})
+		s.Add(explore.Scenario{Name: "stalled-receiver-quick", Remote: true, Tiers: []string{"quick"}, Run: runBubble(t, func(x *explore.X) { stalledScenario(x, 3) })})
+		s.Add(explore.Scenario{Name: "stalled-receiver-thorough", Remote: true, Tiers: []string{"thorough"}, Run: runBubble(t, func(x *explore.X) { stalledScenario(x, 4) })})
 	}
 	s.Main()
 }
